@@ -45,7 +45,9 @@ it the knot, so that the bridging lemma stops type-checking):
                in / not in, is / is not (None, True, False, a class, an enum member), isinstance / issubclass,
                list and dict comprehensions with one generator.
   The TEXT of exception messages is outside the model: the argument of a raised exception is only checked to be
-  built from locals, constants and the total text helpers str / repr / len / wrap_val / join / startswith."""
+  built from locals, constants and the total text helpers str / repr / len / wrap_val / join / startswith; any other
+  expression interpolated in an f-string argument (an attribute read, getattr without a default) is EVALUATED before
+  the raise -- it can raise itself -- and its text is dropped."""
 import ast
 import builtins
 import os
@@ -828,12 +830,37 @@ class TrD:
             return self.benign_text(e)
         return False
 
+    def message_binds(self, a):
+        """the argument of a raised exception: -> binds that evaluate, in order, the interpolated expressions of an
+        f-string that are not benign text (an attribute read, getattr without default, ...): they can raise before
+        the `raise` does; their text is not modelled"""
+        if self.benign_text(a):
+            return []
+        if not isinstance(a, ast.JoinedStr):
+            raise Unsupported("argument of the raised exception %s" % ast.unparse(a)[:70])
+        binds = []
+        for v in a.values:
+            if self.benign_text(v):
+                continue
+            if not (isinstance(v, ast.FormattedValue) and v.conversion == -1 and v.format_spec is None):
+                raise Unsupported("argument of the raised exception %s" % ast.unparse(a)[:70])
+            b, _ = self.val_ne(v.value)
+            binds += b
+        return binds
+
     def exn_ctor(self, r):
+        """-> (binds evaluated before the raise, the exception term)"""
         x = r.exc
+        binds = []
         if isinstance(x, ast.Call):
-            if x.keywords or any(isinstance(a, ast.Starred) or not self.benign_text(a) for a in x.args):
+            if x.keywords or any(isinstance(a, ast.Starred) for a in x.args):
                 raise Unsupported("argument of the raised exception %s" % ast.unparse(x)[:70])
+            for a in x.args:
+                binds += self.message_binds(a)
             x = x.func
+        return binds, self.exn_class(r, x)
+
+    def exn_class(self, r, x):
         if r.cause is not None and not (isinstance(r.cause, ast.Name) and r.cause.id in self.env) \
                 and not (isinstance(r.cause, ast.Subscript) and isinstance(r.cause.value, ast.Name)
                          and r.cause.value.id in self.env and isinstance(r.cause.slice, ast.Constant)):
@@ -902,7 +929,8 @@ class TrD:
                 if not self.exn_vars:
                     raise Unsupported("bare raise outside a handler")
                 return self.raise_term(self.exn_vars[-1])
-            return self.raise_term(self.exn_ctor(s))
+            b, xt = self.exn_ctor(s)
+            return self.sseq(b, self.raise_term(xt), hnow)
         if isinstance(s, ast.Return):
             if s.value is None:
                 return "(Ok PNone)"
